@@ -83,6 +83,7 @@ EXPECT_VIOLATED = {
     "MC_WAL_lex.cfg": ("InOrder", "log file index 10 is listed (and replayed) before index 2"),
     "MC_WAL_startup.cfg": ("NewProcWalIntact", "recovery deletes the datapoint log the restarted process has just created"),
     "MC_WAL_startup_meta.cfg": ("MetaDurable", "the restarted process O_TRUNC-creates the meta-entry log before recovery has read it"),
+    "MC_WAL_metaseg_skip.cfg": ("MetaSegDurable", "model of a meta-entry rewrite that leaves out a segment whose CURRENT block is empty: flushed block, empty current block, rewrite, crash - the segment's logged entry is gone"),
     "MC_WAL_nocrc.cfg": ("NoInvent", "model sensitivity: a reader that does not compare the CRC decodes datapoints that were never written"),
 }
 
@@ -92,7 +93,8 @@ def run_model(chk, quick):
     hold = [("MC_WAL_asis%s.cfg" % deep, "code as it is: TypeOK PrefixPerFile NoInvent Rejected InOrder MetaNoInvent CompleteReplay; crash x2, one Truncate/FlipByte"),
             ("MC_WAL_fixed%s.cfg" % deep, "candidate repairs (flush before delete, flushed block kept, numeric listing): all of the above + Durable"),
             ("MC_WAL_meta_fixed.cfg", "meta-entry log written to a temporary file and renamed: MetaDurable MetaNoInvent"),
-            ("MC_WAL_startup_safe.cfg", "code as it is with the restarted process ingesting during recovery: the safety invariants")]
+            ("MC_WAL_startup_safe.cfg", "code as it is with the restarted process ingesting during recovery: the safety invariants"),
+            ("MC_WAL_metaseg.cfg", "datapoint log + block rotation + meta-entry rewrites together: the entry of a segment with a flushed block stays logged (MetaSegDurable)")]
     jobs = [(cfg, True) for cfg, _ in hold] + [(cfg, False) for cfg in EXPECT_VIOLATED]
     # 3 TLC processes x 2 workers
     res = dict(zip([j[0] for j in jobs], vlib.pmap(lambda j: vlib.run_tlc("MC_WAL", j[0], timeout=900, coverage=j[1], workers=2, heap="3g"), jobs, workers=3)))
@@ -238,6 +240,9 @@ def history(name):
         # 12 files in one block: indexes 10 and 11 sort before 2 in the directory listing
         "lex": [P((0, 1), (2, 2)), ("dp",), ("mn",), ("tt",), ("me",)] + sum([[P((0, 3 + 2 * j), (2, 4 + 2 * j)), ("dp",)] for j in range(12)], []) + [("me",)],
         "tiny": [P((0, 1)), ("dp",), ("mn",), ("tt",), ("me",)],
+        # the engine's own timers do the logging: put, wait for the real 1 s flushers, block rotation, the shards stay idle while
+        # the real meta-entry timer rewrites its log (segments with flushed blocks and an empty current block), more datapoints
+        "realtimers": [P((0, 1), (2, 2), (3, 3)), ("tick",), ("tt",), ("blk",), ("tick",), P((3, 4)), ("tick",), ("blk",), ("tick",)],
         # WAL_BLOCK_FLUSH_SIZE = 2: the third buffered datapoint makes appendToWALBuffer itself append the first two
         "sizeflush": [P((0, 1)), P((0, 2)), P((0, 3)), ("mn",), ("tt",), ("me",), P((0, 4)), P((2, 5)), P((0, 6)), ("me",), P((0, 7)), ("dp",), ("me",)],
         # metric names are logged before (and without) their datapoints
@@ -249,6 +254,10 @@ def history(name):
 
 
 STEP_OP = {"dp": "wal_dpflush", "mn": "wal_mnflush", "tt": "wal_ttflush", "me": "wal_metaflush", "blk": "mblockflush"}
+# "tick": nothing is driven; the step waits until the engine's OWN 1 s timer goroutines (timeBasedMetaEntryWalFlush,
+# timeBasedWalDPSFlush, timeBasedMNameWalFlush) have run - the only way a change to those loop bodies is seen (the shims above
+# are copies of the bodies).  What the timers wrote is read from the recorded system calls, like everything else.
+TICK_CMD = {"op": "wal_wait_ticks", "meta": 2, "timeout_ms": 8000}
 
 
 def put_body(rows, series=SERIES):
@@ -265,6 +274,8 @@ def writer_script(hist, mark):
         cmds.append({"op": "mark", "file": mark, "text": "%s.begin %d" % (st[0], k)})
         if st[0] == "put":
             cmds.append({"op": "otsdb", "body": put_body(st[1])})
+        elif st[0] == "tick":
+            cmds.append(dict(TICK_CMD))
         else:
             cmds.append({"op": STEP_OP[st[0]]})
         cmds.append({"op": "mark", "file": mark, "text": "%s.done %d" % (st[0], k)})
@@ -459,6 +470,8 @@ class Timeline:
         if k is None:
             return "no"
         res = "durable"
+        if self.tags_dir_missing(i):
+            res = "window"
         for (sh, key), fls in self.tt.items():
             # the query path opens the tree files of every tags-tree directory in the time range: one emptied file (of any
             # shard) fails the whole query
@@ -475,6 +488,21 @@ class Timeline:
                 return "no"
         return res
 
+    def tags_dir_missing(self, i):
+        """shards whose meta entry (non-empty time range) has been logged by instant i while no tags-tree flush of the shard has
+        begun: the replayed entry names a tags-tree directory that does not exist, and the query path fails every query of the
+        entry's time range on it (InitAllTagsTreeReader).  The tags tree is not a log (flushed every 60 s): outside C10, the
+        affected crash points only demand what does not need a selector query."""
+        out = set()
+        for seg, en in self.meta_per_segment(i).items():
+            m = re.search(r"/final/ts/(\d+)/", seg)
+            if not m or en.get("earliestEpochSec", 1) > en.get("latestEpochSec", 0):
+                continue
+            sh = m.group(1)
+            if not any(f[0] <= i for (s2, _), fls in self.tt.items() if s2 == sh for f in fls):
+                out.add(sh)
+        return out
+
     def meta_logged(self, i):
         """(entries of the last rewrite that completed by i or None, is a rewrite window open at i)"""
         last, window = None, False
@@ -487,13 +515,29 @@ class Timeline:
                 window = last is not None        # a logged entry exists and its file is being rewritten
         return last, window
 
+    def meta_per_segment(self, i):
+        """segment dir -> the entry of the LAST completed rewrite that listed it (its log append had completed; a later rewrite of
+        the whole file that leaves a still unrotated segment out does not un-log it)"""
+        out = {}
+        for s, e, ents in self.me:
+            if s > i:
+                break
+            if e is not None and e <= i and ents:
+                for en in ents:
+                    if isinstance(en, dict) and en.get("mSegmentDir"):
+                        out[en["mSegmentDir"]] = en
+        return out
+
     def meta_covers(self, si, i):
         last, _ = self.meta_logged(i)
         k = self.first_put_shard.get(self.shard[si])
         if last is None or k is None or last[1] is None:
             return False
         # some rewrite that began after the shard's first put has completed (its entry carries a non-empty time range)
-        return any(e is not None and e <= i and s > self._after(k) for s, e, _ in self.me)
+        sh = self.shard[si]
+        return any(e is not None and e <= i and s > self._after(k) and
+                   any(isinstance(en, dict) and re.search(r"/final/ts/%s/" % sh, en.get("mSegmentDir", "")) for en in (ents or []))
+                   for s, e, ents in self.me)
 
     def window(self, i):
         """semantic label of the crash point (used in violation keys)"""
@@ -514,7 +558,7 @@ class Timeline:
             if unl and not made:
                 return "block-rotation:logs-partly-deleted"
             return "block-rotation:" + ("block-flush" if not unl else "next-log-created")
-        for kind, lab in (("dp", "datapoint-append"), ("mn", "name-append"), ("tt", "tagstree-flush"), ("me", "metaentry-rewrite"), ("put", "ingest")):
+        for kind, lab in (("dp", "datapoint-append"), ("mn", "name-append"), ("tt", "tagstree-flush"), ("me", "metaentry-rewrite"), ("tick", "timer-tick"), ("put", "ingest")):
             if kind in kinds:
                 return lab
         return "between-steps"
@@ -558,8 +602,10 @@ class Timeline:
         order_cause = "log-index-10-listed-before-2" if any(len(x) > 10 for x in files_per_block.values()) else None
         tags_window = any(f and f[-1][0] <= i and (f[-1][1] is None or f[-1][1] > i)
                           for f in ([x for x in fl if x[0] <= i] for fl in self.tt.values()))
-        return {"order_cause": order_cause, "flushed": flushed, "tags_window": tags_window, "allowed": allowed, "must_q": must_q, "must_b": must_b, "names_must": names_must, "names_allowed": names_allowed,
-                "meta": self._needed_meta(last[1], must_b) if last and last[1] else None, "meta_window": mew, "window": self.window(i)}
+        tags_missing = self.tags_dir_missing(i)
+        tags_window = tags_window or bool(tags_missing)
+        return {"order_cause": order_cause, "flushed": flushed, "tags_window": tags_window, "tags_dir_missing": sorted(tags_missing), "allowed": allowed, "must_q": must_q, "must_b": must_b, "names_must": names_must, "names_allowed": names_allowed,
+                "meta": (self._needed_meta(list(self.meta_per_segment(i).values()), must_b) or None) if last else None, "meta_window": mew, "window": self.window(i)}
 
     def _needed_meta(self, entries, must_b):
         """the logged meta entries that must be replayed: those of segments of which at least one datapoint is recoverable
@@ -658,6 +704,9 @@ def judge(o, exp, stage, tsid_ok=True):
     if missb:
         bad.append(("lost-block:" + w, "%s: datapoints whose WAL append had completed are in no metrics block after recovery: %s%s" % (
             stage, ["%s@%d" % (selector(si), ts) for si, ts in missb[:6]], ("; unreadable: %s" % o["block_errs"][:2]) if o["block_errs"] else "")))
+    if exp.get("tags_dir_missing") and any("failed to read the base directory" in e for e in o["qerr"].values()):
+        bad.append(("OBS:meta-entry-replayed-without-tags-tree-directory:" + w, "%s: the meta entries of shards %s were logged before their tags tree was ever flushed; "
+                    "after the restart every selector query of their time range fails: %s" % (stage, exp["tags_dir_missing"], sorted(set(o["qerr"].values()))[0][:200])))
     gone = sorted(k for k in exp.get("flushed", ()) if k not in seen and k not in exp["must_b"])
     if gone:
         bad.append(("OBS:flushed-block-overwritten:" + w, "%s: datapoints that were in a completely flushed block at the crash (but not in a log) are gone after recovery: %s" % (
@@ -1106,12 +1155,12 @@ def run(chk):
         return
     binary = vlib.build_driver()
     rnd = random.Random(chk.seed)
-    plan = [("basic", [("recovery-crash", "end"), ("ingest-before-recovery", "end"), ("log-damage", "end")]), ("walrot", []), ("sizeflush", []), ("namesfirst", [])]
+    plan = [("basic", [("recovery-crash", "end"), ("ingest-before-recovery", "end"), ("log-damage", "end")]), ("walrot", []), ("sizeflush", []), ("namesfirst", []), ("realtimers", [])]
     if not quick:
         plan = [("basic", [("recovery-crash", "end"), ("ingest-before-recovery", "end"), ("recovery-crash", "lastappend"), ("log-damage", "end")]),
                 ("block", [("recovery-crash", "end")]), ("walrot", [("recovery-crash", "end"), ("ingest-before-recovery", "end")]),
                 ("lex", [("recovery-crash", "end")]), ("tiny", []), ("many", [("ingest-before-recovery", "end"), ("log-damage", "end")]),
-                ("sizeflush", [("recovery-crash", "end")]), ("namesfirst", [("recovery-crash", "end")])]
+                ("sizeflush", [("recovery-crash", "end")]), ("namesfirst", [("recovery-crash", "end")]), ("realtimers", [("recovery-crash", "end")])]
     race = ingest_possible_before_recovery()
     chk.cov["ingest_before_recovery_reachable"] = race
     if not race:
